@@ -17,6 +17,10 @@ class Rejected(Exception):
     pass
 
 
+class ActionError(Exception):
+    """raised by the Disposable action of a case with "raises": [k, ...] at its k-th invocation"""
+
+
 def _classes():
     import reactivex.disposable as D
 
@@ -136,6 +140,7 @@ class World:
             mk = dc.traced_class(base, TRACED[cls], extra)
         if cls == "disposable":
             self.reenter = case.get("reenter", 0)
+            self.raises = set(case.get("raises", []))
             self.obj = mk(self._action)
         elif cls == "boolean":
             self.obj = mk()
@@ -170,8 +175,13 @@ class World:
             else:
                 self.obj = mk(self.sched, self.items[0])
         if ctl is not None:
-            lk = self.obj.disposable.lock if cls == "scheduled" else self.obj.lock
-            ctl.lock_names[id(lk)] = 0
+            lk = None
+            if cls == "scheduled":  # the lock that guards the wrapped resource: the inner holder's, else the object's own
+                lk = getattr(self.obj.__dict__.get("disposable"), "lock", None)
+            if lk is None:
+                lk = getattr(self.obj, "lock", None)
+            if lk is not None:
+                ctl.lock_names[id(lk)] = 0
             ctl.recording = True
 
     def _action(self):
@@ -179,17 +189,26 @@ class World:
         if ctl is not None:
             ctl.point()
             ctl.log("A")
+        k = self.actions
         self.actions += 1
         if self.actions <= 20:  # a broken Disposable would re-run the action for every nested call: keep that finite
             for _ in range(self.reenter):
-                self.obj.dispose()
+                try:
+                    self.obj.dispose()
+                except ActionError:
+                    pass
+        if k in self.raises:
+            raise ActionError(k)
 
     # ---- one call; returns the JSON result (as the driver encodes RV) or raises Rejected
     def call(self, op, mine=None):
         o, k = self.obj, op[0]
         cls = self.cls
         if cls in ("disposable", "boolean"):
-            o.dispose()
+            try:
+                o.dispose()
+            except ActionError:
+                raise Rejected()
             return None
         if cls == "scheduled":
             if k == "dispose":
@@ -255,7 +274,24 @@ class World:
         raise ValueError(f"bad op {op} for {cls}")
 
     def flag(self):
-        o = self.obj.disposable if self.cls == "scheduled" else self.obj
+        """the object's is_disposed, read without logging / yielding"""
+        o = self.obj
+        if self.cls == "scheduled":
+            inner = o.__dict__.get("disposable")
+            d = getattr(inner, "__dict__", {})
+            if inner is not self.items[0] and ("_tr_is_disposed" in d or "is_disposed" in d):
+                return bool(dc.raw(inner, "is_disposed"))
+            if "_tr_is_disposed" in o.__dict__ or "is_disposed" in o.__dict__:
+                return bool(dc.raw(o, "is_disposed"))
+            ctl = dc.CUR[0]
+            rec = ctl.recording if ctl is not None else None
+            if ctl is not None:
+                ctl.recording = False
+            try:
+                return bool(getattr(o, "is_disposed", False))
+            finally:
+                if ctl is not None:
+                    ctl.recording = rec
         return bool(dc.raw(o, "is_disposed"))
 
     # ---- observable state, same shape as the driver's `obs`
@@ -268,7 +304,7 @@ class World:
             return {"is_disposed": bool(dc.raw(o, "is_disposed"))}
         if cls == "scheduled":
             q = len(self.sched.queue) if isinstance(self.sched, QueueScheduler) else None
-            return {"is_disposed": bool(dc.raw(o.disposable, "is_disposed")), "cnt": cnt[:1], "queued": q}
+            return {"is_disposed": self.flag(), "cnt": cnt[:1], "queued": q}
         if cls == "composite":
             return {"is_disposed": bool(dc.raw(o, "is_disposed")), "items": [x.idx for x in dc.raw(o, "disposable")], "cnt": cnt}
         if cls in ("serial", "mad", "sad"):
@@ -306,9 +342,9 @@ def run_threads(case, plan, lines=False):
         for op in case.get("setup", []):
             try:
                 r = w.call(op, mine0)
-                ctl.log("ret", r)
+                ctl.log("ret", r, w.flag())
             except Rejected:
-                ctl.log("raise")
+                ctl.log("raise", None, w.flag())
 
         def prog(ops):
             def fn():
@@ -354,6 +390,8 @@ def model_request(case, trace=None):
         threads = [case.get("setup", [])] + threads
     if cls in ("disposable", "boolean"):
         req["threads"] = [len(t) for t in threads]
+        if case.get("raises"):
+            req["raises"] = case["raises"]
     elif cls == "scheduled":
         req["threads"] = [sum(1 for op in t if op[0] == "dispose") for t in threads]
         req["workers"] = case.get("workers", 0)
